@@ -41,6 +41,7 @@ type frame struct {
 	panic            any
 	phitemps         []value
 	depth            int
+	skipPhis         bool // phis of fr.block were assigned by if-conversion
 }
 
 func (fr *frame) get(key ssa.Value) value {
@@ -170,8 +171,14 @@ func (m *Machine) visitInstr(fr *frame, instr ssa.Instruction) continuation {
 		store(nil, p, fr.get(instr.Val))
 
 	case *ssa.If:
+		cv := fr.get(instr.Cond)
+		if sv, isSym := cv.(symv); isSym && !sv.t.IsConst() {
+			if cont, ok := m.tryIfConvert(fr, instr, sv.t); ok {
+				return cont
+			}
+		}
 		succ := 1
-		if m.decide(fr.get(instr.Cond), "if") {
+		if m.decide(cv, "if@"+fr.fn.String()) {
 			succ = 0
 		}
 		fr.prevBlock, fr.block = fr.block, fr.block.Succs[succ]
@@ -543,6 +550,10 @@ func executePhis(fr *frame) []ssa.Instruction {
 		}
 	}
 	nonPhis := fr.block.Instrs[firstNonPhi:]
+	if fr.skipPhis {
+		fr.skipPhis = false
+		return nonPhis
+	}
 	if firstNonPhi > 0 {
 		phis := fr.block.Instrs[:firstNonPhi]
 		predIndex := slices.Index(fr.block.Preds, fr.prevBlock)
